@@ -42,8 +42,9 @@ RULE = ("histories of requests against the real kvarn::handle_cache in process (
         "after their first line; files: *.private (also in a sub-directory), '!> hide', '!> allow-ips <list>' with and without '&> cache ...' "
         "before/after it, two allow-ips directives, allow-ips + hide, CRLF line ends, near-miss address texts (10.0.0.11 vs 10.0.0.1, leading "
         "zeros, /32, ::ffff:10.0.0.1, 3 or 5 groups), unguarded controls (x.PRIVATE, .private, plain). Histories: listed address first, then "
-        "other addresses, per spelling; spellings = percent-encoding of a subset of the characters of the path (all 2^n subsets for n <= 8 in the "
-        "thorough tier, either hex case), plus structural variants (trailing '/', '/.', '//', '%00', '%ff', encoded '/'); GET/HEAD/POST, "
+        "other addresses, per spelling; spellings = percent-encoding of a subset of the characters of the path (exhaustive scenarios: all 2^k "
+        "subsets of the last k = min(n, 8..9) characters - at least the whole '.private' suffix - for one private, one allow-ips and one hide file in "
+        "rotation; either hex case), plus structural variants (trailing '/', '/.', '//', '%00', '%ff', encoded '/'); GET/HEAD/POST, "
         "Range (satisfiable, unsatisfiable), Accept-Encoding, queries, vary rules on the raw path (variant push), response cache and file cache "
         "on/off. Oracles: (1) spec component guards.spec (Gallina [permitted_b]): a SECRET marker in a body => permitted for exactly that file; "
         "(2) model-independent Python oracle with its own line/address parser (ipaddress module). "
@@ -294,16 +295,19 @@ def generate(rng, tier):
             vary = [pipe.vary_rule(sp, [(b"x-v", rng.choice([0, 1]), b"-")]) for sp in sorted(set(spellings)) if rng.random() < 0.7 and b"?" not in sp]
         ops = history(rng, spellings)
         cases += mk(rng, files, ops, "random", vary=vary, both=(i % 3 == 0))
-    # exhaustive subsets of positions for short names
-    nex = 3 if tier == "quick" else 30
+    # exhaustive subsets of positions: all 2^k subsets of the last k = min(len, cap) characters of the path
+    # (for *.private that is at least the whole ".private" suffix), kinds in rotation
+    nex = 3 if tier == "quick" else 36
+    cap = 8 if tier == "quick" else 9
     for i in range(nex):
         files, targets = fixture(rng, rich=False)
-        short = [t for t in targets if len(t[0]) - 1 <= (6 if tier == "quick" else 8)]
-        path, kind = rng.choice(short)
+        want = ("private", "allow", "hide")[i % 3]
+        path, kind = rng.choice([t for t in targets if t[1] == want])
         ln = len(path) - 1
+        k = min(ln, cap if want == "private" else 8)
         ops = []
-        for mask in range(1 << ln):
-            sp = encode(path, mask, rng)
+        for sub in range(1 << k):
+            sp = encode(path, sub << (ln - k), rng)
             ops.append(pipe.req(sp, addr=1))
             ops.append(pipe.req(sp, addr=rng.choice([2, 3, 11, 256]), method=rng.choice([b"GET", b"GET", b"HEAD"]), headers=rng.choice(HDR_SETS[:8])))
         cases += mk(rng, files, ops, "exhaustive-spellings/" + kind, both=False, cache=True)
